@@ -28,7 +28,7 @@ NEEDS_LIB = any("_build/" in x for x in extra)
 
 def demo():
     (wt / "_scratch").mkdir(exist_ok=True)
-    c = sh(f"g++ -std=c++20 -O1 -I include -I . -I src -I tests {mdir}/demo.cpp {' '.join(extra)} -o _scratch/demo_{mname} -lpthread")
+    c = sh(f"g++ -std=c++20 -O1 -I include -I . -I src -I tests {mdir}/demo.cpp {' '.join(extra)} -o _scratch/demo_{mname} -lcurl -lpthread")
     if c.returncode != 0:
         return None, c.stderr[-2000:]
     r = sh(f"EPH_CLI_EXECUTABLE=$PWD/_build/eph timeout 600 ./_scratch/demo_{mname}")
